@@ -139,11 +139,11 @@ def cxx_build(name, sources, extra=(), libs=(), compiler="g++", timeout=900, lan
     out = os.path.join(bind, name)
     srcs = [s if os.path.isabs(s) else os.path.join(VERIF, "harness", s) for s in sources]
     flags = cxx_flags(extra) if lang_flags is None else list(lang_flags)
-    cmd = [compiler] + flags + srcs + ["-o", out + ".new"] + list(libs) + ["-lpthread"]
+    cmd = [compiler] + flags + srcs + ["-o", out + ".new%d" % os.getpid()] + list(libs) + ["-lpthread"]
     rc, o = sh(cmd, timeout=timeout)
     if rc != 0:
         return False, out, o
-    os.replace(out + ".new", out)
+    os.replace(out + ".new%d" % os.getpid(), out)
     return True, out, o
 
 
